@@ -196,7 +196,7 @@ func Index(collection, key cty.Value, srcRange *Range) (cty.Value, Diagnostics) 
 			}
 		}
 		if !key.IsKnown() {
-			return cty.DynamicVal.WithSameMarks(collection), nil
+			return cty.DynamicVal.WithSameMarks(collection, key), nil
 		}
 
 		key, _ = key.Unmark()
